@@ -474,12 +474,12 @@ Proof.
       destruct b; [destruct trunc; [|destruct (fill_ok_total sid w1) as (w2 & ->)]|] end; eexists _, _, _, _; reflexivity.
 Qed.
 
-Lemma part_open_total h id f w : exists r w', part_open h id f w = Some (r, w').
+Lemma part_open_in_total intx h id f w : exists r w', part_open_in intx h id f w = Some (r, w').
 Proof.
-  unfold part_open. destruct (nlookup h (w_handles w)); [eexists _, _; reflexivity|].
+  unfold part_open_in. destruct (nlookup h (w_handles w)); [eexists _, _; reflexivity|].
   destruct (c_get id (w_c w)) as [c [r|]]; [eexists _, _; reflexivity|].
   cbn [set_c w_inner w_hints w_c w_handles w_sets w_nextsid].
-  assert (exists r w', match alookup id (w_inner w) with
+  assert (exists r w', match alookup id (inner_view intx (set_c c w)) with
      | None => Some (RNotFound, set_c c w)
      | Some data0 =>
         let trunc := match f with FReadFail k => k <? length data0 | _ => false end in
@@ -499,10 +499,20 @@ Proof.
                  Some (ROpen B"s", set_handles (nset h (HStream data 0 0 true sid trunc) (w_handles w3)) w3)
              end
      end = Some (r, w')) as Hmain.
-  { destruct (alookup id (w_inner w)) as [data0|]; [|eexists _, _; reflexivity]. cbv zeta.
+  { destruct (alookup id (inner_view intx (set_c c w))) as [data0|]; [|eexists _, _; reflexivity]. cbv zeta.
     destruct (mem_bytes id (w_hints w)); [eexists _, _; reflexivity|].
     destruct (begin_total id (-1) c) as (c2 & wr0 & ->). eexists _, _; reflexivity. }
   destruct f; try exact Hmain. eexists _, _; reflexivity.
+Qed.
+
+Lemma part_open_total h id f w : exists r w', part_open h id f w = Some (r, w').
+Proof. apply part_open_in_total. Qed.
+
+Lemma commit_hooks_total ops : forall w, exists w', commit_hooks ops w = Some w'.
+Proof.
+  induction ops as [|[id v|id] ops IH]; intros w; cbn [commit_hooks]; [eexists; reflexivity| |apply IH].
+  destruct (length v <=? w_maxpart w); [|apply IH].
+  match goal with |- context [c_set id v ?hint None ?c] => destruct (set_total id v hint None c) as (c' & ->) end. apply IH.
 Qed.
 
 Lemma step1_total o w : exists r w', step1 o w = Some (r, w').
@@ -535,6 +545,12 @@ Proof.
   - destruct (length v <=? w_maxpart w); [|eexists _, _; reflexivity].
     match goal with |- context [c_set id v ?hint ?fl ?c] => destruct (set_total id v hint fl c) as (c' & ->) end.
     eexists _, _; reflexivity.
+  - destruct (w_tx w); eexists _, _; reflexivity.
+  - destruct (w_tx w); eexists _, _; reflexivity.
+  - destruct (w_tx w); eexists _, _; reflexivity.
+  - destruct (w_tx w) as [ops|]; [|eexists _, _; reflexivity].
+    destruct (commit_hooks_total ops (set_tx None (set_inner (apply_txops ops (w_inner w)) w))) as (w' & ->). eexists _, _; reflexivity.
+  - destruct (w_tx w); eexists _, _; reflexivity.
 Qed.
 
 Lemma step_total o w : exists r w', step o w = Some (r, w').
@@ -545,6 +561,14 @@ Proof.
   - destruct (step1_total (POpenF tmp_handle id f) w) as (r & w1 & ->).
     destruct r; try (eexists _, _; reflexivity). apply step1_total.
   - destruct (step1_total (POpen tmp_handle id) w) as (r & w1 & ->).
+    destruct r; try (eexists _, _; reflexivity).
+    destruct (step1_total (ORead tmp_handle n) w1) as (r2 & w2 & ->).
+    destruct (step1_total (OClose tmp_handle) w2) as (r3 & w3 & ->). eexists _, _; reflexivity.
+  - destruct (w_tx w); [|eexists _, _; reflexivity].
+    destruct (part_open_in_total true tmp_handle id FNone w) as (r & w1 & ->).
+    destruct r; try (eexists _, _; reflexivity). apply step1_total.
+  - destruct (w_tx w); [|eexists _, _; reflexivity].
+    destruct (part_open_in_total true tmp_handle id FNone w) as (r & w1 & ->).
     destruct r; try (eexists _, _; reflexivity).
     destruct (step1_total (ORead tmp_handle n) w1) as (r2 & w2 & ->).
     destruct (step1_total (OClose tmp_handle) w2) as (r3 & w3 & ->). eexists _, _; reflexivity.
